@@ -21,11 +21,11 @@ type e2spec struct {
 	configs int
 	cases   int
 	maxS    float64
-	nenum   int // C05: configurations of the exhaustive small-graph family (8 shapes x 4^3 scope assignments = 512)
+	nenum   int // C05: configurations of the exhaustive small-graph family (9 shapes x 4^3 scope assignments = 576)
 }
 
 var engine2Tiers = map[string]map[string]e2spec{
-	"C05": {"quick": {24, 8000, 150, 128}, "thorough": {96, 300000, 1500, 512}},
+	"C05": {"quick": {24, 8000, 150, 144}, "thorough": {96, 300000, 1500, 576}},
 	"C15": {"quick": {24, 4800, 150, 0}, "thorough": {96, 200000, 1500, 0}},
 	"C20": {"quick": {20, 8000, 200, 40}, "thorough": {64, 300000, 1800, 160}},
 }
@@ -439,11 +439,11 @@ func report2(o opts, s *prep.Scratch, probe string, g genOut, m1 *merged, m2 *e2
 	}
 	switch o.prop {
 	case "C15":
-		cov["exhaustive_subspace"] = fmt.Sprintf("all %d histories of length 1..4 over an 11-operation alphabet {GetParam p1|p2|p3|p4, Get s1|s2|s3, OverrideParam p1:=value, p1:=param p3, p3:=provider, OverrideService s1} on the configuration {p1=%%todo(\"quota reached: 90%%%% of %%%%d (see %%%%s)\")%%, p2=%%p1%%-x, p3=7, p4=%%todo()%%, s1 todo, s2(@s1,%%p2%%), s3(%%p3%%)} were executed and compared with the model", st.Probes["exhaustive-histories-up-to-length-4"])
+		cov["exhaustive_subspace"] = fmt.Sprintf("all %d histories of length 1..4 over an 12-operation alphabet {GetParam p1|p2|p3|p4|p5, Get s1|s2|s3, OverrideParam p1:=value, p1:=param p3, p3:=provider, OverrideService s1} on the configuration {p1=%%todo(\"quota reached: 90%%%% of %%%%d (see %%%%s)\")%%, p2=%%p1%%-x, p3=7, p4=%%todo()%%, p5=%%todo(\"\")%%, s1 todo, s2(@s1,%%p2%%), s3(%%p3%%)} were executed and compared with the model", st.Probes["exhaustive-histories-up-to-length-4"])
 	case "C20":
 		cov["enumerated_family_members"] = fmt.Sprintf("%d configurations of the small-graph family of C05 (bare values, decorators, tags, every scope assignment) are part of the batch", engine2Tiers["C20"][o.tier].nenum)
 	case "C05":
-		cov["exhaustive_subspace"] = fmt.Sprintf("%d configurations of the enumerated family (8 small shapes: argument chain, field+call fan-out, tag edge, decorator edge, two decorators on two tags in both orders, chain ending in a scoped todo placeholder, decorated bare value with typed getters; every third member also with a reference to an undefined service under --ignore-missing-services) x scope assignments {unset,shared,contextual,non_shared}^3 (512 in the thorough tier = the whole family) had their verdict compared with the legality model and, if accepted, were run under drawn histories", engine2Tiers["C05"][o.tier].nenum)
+		cov["exhaustive_subspace"] = fmt.Sprintf("%d configurations of the enumerated family (8 small shapes: argument chain, field+call fan-out, tag edge, decorator edge, two decorators on two tags in both orders, chain ending in a scoped todo placeholder, decorated bare value with typed getters, two calls injecting b and c; every third member also with a reference to an undefined service under --ignore-missing-services, every fifth built with --stub) x scope assignments {unset,shared,contextual,non_shared}^3 (576 in the thorough tier = the whole family) had their verdict compared with the legality model and, if accepted, were run under drawn histories", engine2Tiers["C05"][o.tier].nenum)
 	}
 	ev := &Evidence{PropertyID: o.prop, Tier: o.tier, Seed: int64(o.seed), Level: "exploration", Coverage: cov, Assumptions: assumptions2[o.prop], WallS: wall, Violations: newViol}
 	if evals == 0 {
